@@ -16,10 +16,9 @@ PROPS["C14"] = dict(
                 "recovered (lemma_unfit_not_recovered), so silent truncation is a decode mismatch. emit/change_operand/patch_jump record "
                 "a compile error for every operand that does not fit its width (operands_fit == the spec predicate), and compile() "
                 "returns Err whenever one was recorded. Code generator (cgen unit, real bodies): every emit call in compile_statement / compile_expression / compile_if_expression / compile_logical_and / compile_logical_or / "
-                "compile_function_literal / load_symbol / save_symbol / compile_index / compile_prop / compile_infix passes at least as many operands as its opcode encodes (emit's precondition, discharged at each call site), "
+                "compile_function_literal / compile_match_expression / compile_filter_statement / emit_action_stmt / load_symbol / save_symbol / compile_index / compile_prop / compile_infix passes at least as many operands as its opcode encodes (emit's precondition, discharged at each call site), "
                 "patch_jump / change_operand are only applied to the start of a one-operand instruction, and the bytes they leave are the big-endian encoding of the new operand (lemma_patched_jump).",
-    not_covered=["compile_match_expression / compile_filter_statement call sites of emit (behind one assumed contract in the cgen unit; the programmatic frame scan of the emitter unit counts their operands)",
-                 "VM::run's fetch/dispatch loop header and tail (each of its 48 arms is verified: it decodes big-endian operands of exactly the encoder's widths and leaves ip on the last operand byte)"],
+    not_covered=[                 "VM::run's fetch/dispatch loop header and tail (each of its 48 arms is verified: it decodes big-endian operands of exactly the encoder's widths and leaves ip on the last operand byte)"],
     assumptions=["lazy_static evaluates the DEFINITIONS initializer exactly once and DEFINITIONS.get is HashMap::get on it (R6)",
                  "byteorder::WriteBytesExt::write_u16::<BigEndian>/write_u8 append the big-endian bytes (shim contracts)",
                  "derived Hash/Eq of the field-less enum Opcode obey the HashMap key model"],
@@ -38,14 +37,14 @@ PROPS["C01"] = dict(
                 "(literals, prefix/infix/assignment/range/dot/index/call/grouped/if/match/function/array/map/dollar parsers, parse_block_statement, parse_function_params, convert_to_pattern_list) and parse_expression's Pratt loop are verified on their real bodies: "
                 "no index, slice or unwrap can fail (the radix slices under the scanner's token invariant; `arms[arms.len() - 1]` only when a default arm was seen), diagnostics only grow, and every loop terminates under the measure "
                 "3 x input left + 2 x [look-ahead not Eof] + [current not Eof] (Eof is not assumed absorbing: a NUL in the text yields Eof in mid-input). "
-                "Code generator (cgen unit, round 3): compile_statement (all arms incl. loop / while / break / continue), compile_expression (all arms), compile_if_expression, compile_logical_and / or, compile_function_literal, compile_block_statement, "
+                "Code generator (cgen unit, round 3): compile_statement (all arms incl. loop / while / break / continue), compile_expression (all arms), compile_if_expression, compile_logical_and / or, compile_function_literal, compile_match_expression, compile_filter_statement, emit_action_stmt, compile_block_statement, "
                 "compile_identifier / index / dot / prop / infix, load / save_symbol, enter / leave_scope and the stream helpers (emit, change_operand, patch_jump, remove_last_pop, replace_last_pop_with_return, replace_instruction) are verified on their real bodies against a "
                 "representation invariant (the scope's bytes are a sequence of well-formed instructions, last_ins is the last of them, every recorded break placeholder is the start of a Jump): no index, slice, truncation, patch, subtraction or unwrap in them can fail for any AST, "
                 "each only appends to the stream and restores block depth, loop stack and symbol-table nesting.",
     not_covered=["termination of the recursive descent as a whole: the recursive entries parse_expression / parse_statement are seen by their callers through one assumed contract (diagnostics grow, the measure does not increase), so each function's own loops terminate but the recursion depth (bounded by the tokens consumed) is stated, not proved",
                  "that each function value stored in PARSE_RULES is one of the verified prefix / infix parsers (the indirect calls go through dispatch shims carrying their common contract)",
-                 "compile_match_expression and compile_filter_statement / emit_action_stmt (behind the code generator's common contract, assumed; exercised by the bounded stand-in); termination of the compile_* recursion (structural on the AST: stated, not proved)"],
-    assumptions=["cgen: the two AST shapes the parser never produces for an error-free program reach the compiler's two panic! sites (Statement::Invalid; a Builtin identifier other than stdin/stdout/stderr); block depth stays below usize::MAX; a map literal has fewer than usize::MAX/2 pairs; symbol-table operations keep the nesting of tables (symtab unit's contracts, restated)",
+                 "termination of the compile_* recursion (structural on the AST: stated, not proved); Compiler::new (that it starts with one empty main scope is read, not verified)"],
+    assumptions=["cgen: the two AST shapes the parser never produces for an error-free program reach the compiler's two panic! sites (Statement::Invalid; a Builtin identifier other than stdin/stdout/stderr); every match expression has at least one arm and every arm at least one pattern (the parser appends the default arm); block depth stays below usize::MAX; a map literal has fewer than usize::MAX/2 pairs; symbol-table operations keep the nesting of tables (symtab unit's contracts, restated)",
                  "Unicode classification (is_alphabetic/is_alphanumeric) is uninterpreted except: NUL is in no class, alphabetic implies alphanumeric",
                  "fewer than 2^64 - 2 characters/tokens are scanned (read_position does not overflow)",
                  "string building shims (collect, to_string, format!) return some String",
@@ -125,7 +124,7 @@ PROPS["C13"] = dict(
                 "(push/pop/top, call_func, call_builtin, push_closure, binary_op, bitwise_op, exec_call, push_frame) carries the line argument. "
                 "Compiler (cgen unit, real bodies): for a binary operator other than && / ||, a unary operator, an index, a call and a packet-property access, the last instruction compile_expression emits - the one that can fail at run time - "
                 "is the node's own opcode (infix_opcode / unary_opcode tables, Get/SetIndex, Call, Get/SetProp) and the line recorded at its opcode byte is the line of the node's own token (op_line / last_line_is).",
-    not_covered=["lines the compiler gives to match-pattern comparisons and filter statements (compile_match_expression / compile_filter_statement are behind an assumed contract)", "errors raised inside the 12 layer-getter arms of exec_prop_* (they return error OBJECTS, never runtime errors: pktcache) and inside builtins (call_builtin puts the line on them)",
+    not_covered=["lines of the comparison instructions generated for match patterns (they carry the pattern's or the arm's token line by construction; not stated as a postcondition)", "errors raised inside the 12 layer-getter arms of exec_prop_* (they return error OBJECTS, never runtime errors: pktcache) and inside builtins (call_builtin puts the line on them)",
                  "that `line` passed to the arms is instructions.lines[ip] (one line of VM::run's loop header)"],
     assumptions=[],
     trusted=COMMON_TRUST,
